@@ -61,3 +61,15 @@ Example C14_nonvacuous :
     first_offence hinfo [] ps =
       Some "A clause for T::m0 has already been registered as InOrder, but got re-registered as InAnyOrder. They cannot be mixed for the same MockFn."%string.
 Proof. cbn zeta. split; [reflexivity|]. split; [reflexivity|]. eexists. split; vm_compute; reflexivity. Qed.
+
+(* non-vacuity for stubs: the patterns of a NON-EMPTY `stub(|each| ..)` reach the assembler through the same sink, as unordered
+   pushes - after a `next_call` clause of the same method the constructor refuses the stub (and the other way round) *)
+Example C14_stub_conflict_nonvacuous :
+  let nx := TCall 1 NextCall (Pt (Some 255) None [OReturns 1; ONTimes 2]) in
+  let st := TStub 1 [Pt (Some 255) None [OReturns 2]; Pt (Some 255) None [OReturns 3]] in
+  let other := TCall 3 EachCall (Pt (Some 255) None [OReturns 4]) in
+  assemble hinfo cfg_std FbError [nx; other; st] =
+    Some (inr "A clause for T::m1 has already been registered as InOrder, but got re-registered as InAnyOrder. They cannot be mixed for the same MockFn."%string) /\
+  assemble hinfo cfg_std FbError [st; other; nx] =
+    Some (inr "A clause for T::m1 has already been registered as InAnyOrder, but got re-registered as InOrder. They cannot be mixed for the same MockFn."%string).
+Proof. cbn zeta. split; vm_compute; reflexivity. Qed.
